@@ -76,6 +76,10 @@ where
         try_lock!(self.inner.read()).on_register_dispatch(collector);
     }
 
+    fn on_subscribe(&mut self, collector: &mut C) {
+        try_lock!(self.inner.write(), else return).on_subscribe(collector);
+    }
+
     #[inline]
     fn register_callsite(&self, metadata: &'static Metadata<'static>) -> Interest {
         try_lock!(self.inner.read(), else return Interest::sometimes()).register_callsite(metadata)
@@ -181,6 +185,11 @@ where
     #[inline]
     fn enabled(&self, metadata: &Metadata<'_>, ctx: &subscribe::Context<'_, C>) -> bool {
         try_lock!(self.inner.read(), else return false).enabled(metadata, ctx)
+    }
+
+    #[inline]
+    fn event_enabled(&self, event: &Event<'_>, ctx: &subscribe::Context<'_, C>) -> bool {
+        try_lock!(self.inner.read(), else return false).event_enabled(event, ctx)
     }
 
     #[inline]
